@@ -240,8 +240,35 @@ func c02synthetic(g *Gen) {
 		} else {
 			cls = append(cls, "without-tracker")
 		}
-		for k := 0; k < 1+g.R.Intn(5); k++ {
-			t := g.tyGen(TyOpts{Pkgs: c02pkgs, Depth: 1 + g.R.Intn(3), Funcs: true}, 0)
+		// fixed openings (one namer, so one memo and one scratch state, for the whole case):
+		// a struct and then a struct with a not-yet-named struct as a later member; and four
+		// packages of which two run out of directory names and get numbered aliases
+		var forced []*TNode
+		bi := func(n string) *TNode { return &TNode{Kind: "builtin", Nm: n} }
+		switch i % 5 {
+		case 0:
+			forced = []*TNode{
+				{Kind: "struct", MNames: []string{"F0", "F1", "F2"}, Kids: []*TNode{bi("int"), bi("string"), bi("bool")}},
+				{Kind: "struct", MNames: []string{"F0", "F1", "F2"}, Kids: []*TNode{bi("int"),
+					{Kind: "struct", MNames: []string{"F0", "F1"}, Kids: []*TNode{bi("string"), {Kind: "named", Pkg: g.Pick(c02pkgs), Nm: "T"}}},
+					bi("bool")}},
+			}
+			cls = append(cls, "nested-struct-after-struct")
+		case 1:
+			for _, p := range []string{"x/b", "ab", "a/b", "a-b"} {
+				forced = append(forced, &TNode{Kind: "pointer", Kids: []*TNode{{Kind: "named", Pkg: p, Nm: "T"}}})
+			}
+			if useTracker {
+				cls = append(cls, "numbered-alias-twice")
+			}
+		}
+		for k, nk := 0, len(forced)+1+g.R.Intn(5); k < nk; k++ {
+			var t *TNode
+			if k < len(forced) {
+				t = forced[k]
+			} else {
+				t = g.tyGen(TyOpts{Pkgs: c02pkgs, Depth: 1 + g.R.Intn(3), Funcs: true}, 0)
+			}
 			c02fix(t)
 			trees = append(trees, t)
 			obj := t.Build(named)
